@@ -34,7 +34,7 @@ T gx;        /* ghost abscissa */
 /* well-formed handle with at least two points (no statement about order) */
 #define grid_wf(g)  (GID(g) < BS_NG && GN(g) >= 2 && GN(g) <= BS_CAP)
 /* strictly increasing, adjacent form at one index */
-#define grid_inc_at(g, i)  (!((i) + 1 < GN(g)) || GRID(g, i) < GRID(g, (i) + 1))
+#define grid_inc_at(g, i)  (!((i) < BS_CAP && (i) + 1 < GN(g)) || GRID(g, i) < GRID(g, (i) + 1))
 /* "the vector is strictly increasing" as the two equivalent quantified statements (used only by the
  * stand-alone lemmas L_sorted_*; no proof about library code has a quantifier in it) */
 #define grid_sorted_adjacent(g) \
